@@ -366,6 +366,7 @@ fn now_ms() -> u64 {
 /// (inconclusive, never a violation).
 pub fn start_watchdog(limit_s: u64) {
     let _ = now_ms();
+    start_stall_monitor();
     std::thread::Builder::new()
         .name("watchdog".into())
         .spawn(move || loop {
@@ -378,6 +379,52 @@ pub fn start_watchdog(limit_s: u64) {
             }
         })
         .ok();
+}
+
+/// Moments at which the whole process (or machine) stood still: a monitor thread sleeps 50 ms at a time and records every
+/// wake-up that came more than a second late (a paused or heavily overloaded machine). A case that fails while such a
+/// stall happened is inconclusive: every wall-clock deadline in it may have been missed for reasons outside the code
+/// under test.
+static STALLS: Mutex<Vec<(std::time::Instant, std::time::Duration)>> = Mutex::new(Vec::new());
+
+fn start_stall_monitor() {
+    static STARTED: OnceLock<()> = OnceLock::new();
+    STARTED.get_or_init(|| {
+        std::thread::Builder::new()
+            .name("stall-monitor".into())
+            .spawn(|| loop {
+                let before = std::time::Instant::now();
+                std::thread::sleep(std::time::Duration::from_millis(50));
+                let late = before.elapsed().saturating_sub(std::time::Duration::from_millis(50));
+                if late > std::time::Duration::from_millis(1000) {
+                    if let Ok(mut v) = STALLS.lock() {
+                        v.push((std::time::Instant::now(), late));
+                        if v.len() > 256 {
+                            v.remove(0);
+                        }
+                    }
+                }
+            })
+            .ok();
+    });
+}
+
+/// The longest stall that ended after `t`, if any.
+pub fn stalled_since(t: std::time::Instant) -> Option<std::time::Duration> {
+    STALLS.lock().ok().and_then(|v| v.iter().filter(|(end, _)| *end >= t).map(|(_, d)| *d).max())
+}
+
+/// Runs one case; a failure that coincides with a machine stall becomes harness trouble (inconclusive).
+fn judged<F: FnOnce() -> CaseResult>(f: F) -> CaseResult {
+    let started = std::time::Instant::now();
+    let r = guarded(f);
+    match r {
+        Err(fail) if !fail.signature.contains("/harness-") => match stalled_since(started) {
+            Some(d) => Err(CaseFail::new("engine/harness-machine-stalled", format!("the process stood still for {} ms while this case ran; its failure ([{}] {}) is not judged", d.as_millis(), fail.signature, fail.message))),
+            None => Err(fail),
+        },
+        other => other,
+    }
 }
 
 pub fn case_begin() {
@@ -502,7 +549,7 @@ impl Ctx {
                 }
             };
             case_begin();
-            let r = guarded(|| f(&case));
+            let r = judged(|| f(&case));
             case_end();
             self.replay_results.push((path, r.err()));
         }
@@ -546,7 +593,7 @@ impl Ctx {
             let strat = strategy();
             let res = runner.run(&strat, |case| {
                 case_begin();
-                let r = guarded(|| f(&case));
+                let r = judged(|| f(&case));
                 case_end();
                 let mut st = state.borrow_mut();
                 let failed_already = st.3;
@@ -669,7 +716,7 @@ impl Ctx {
         let mut failure = None;
         for case in cases {
             case_begin();
-            let r = guarded(|| f(&case));
+            let r = judged(|| f(&case));
             case_end();
             match r {
                 Ok(ok) => account(&mut stats, &case, &ok),
@@ -719,7 +766,7 @@ impl Ctx {
                 }
                 let case = gen(i);
                 case_begin();
-                let r = guarded(|| f(&case));
+                let r = judged(|| f(&case));
                 case_end();
                 match r {
                     Ok(ok) => account(&mut stats, &case, &ok),
